@@ -4,7 +4,7 @@
 # depend on golang.org/x/tools/go/packages crash under this toolchain and are not in the baseline).
 export GOFLAGS=-mod=mod GOPROXY=off GOSUMDB=off GOTOOLCHAIN=local
 OUT=$(mktemp)
-(cd /repo && go test -json -vet=off -count=1 -timeout 25m ./... > "$OUT" 2>/dev/null)
+(cd "${BASELINE_REPO:-/repo}" && go test -json -vet=off -count=1 -timeout 25m ./... > "$OUT" 2>/dev/null)
 python3 - "$OUT" <<'PY'
 import json,sys
 base=json.load(open('/root/.vp/BASELINE.json'))['stable_pass']
